@@ -14,7 +14,8 @@
 void trap(Trap t) { fprintf(stderr, "trap %d\n", (int)t); abort(); }
 typedef U64 (*fn)(atInstance*, U32, U64, U64);
 #define F5(tag) {"ld" #tag, at_ld##tag}, {"st" #tag, at_st##tag}, {"add" #tag, at_add##tag}, {"xchg" #tag, at_xchg##tag}, {"cas" #tag, at_cas##tag}
-static struct { const char* name; fn f; } table[] = { F5(8), F5(16), F5(32), F5(8l), F5(16l), F5(32l), F5(64), {NULL, NULL} };
+static struct { const char* name; fn f; } table[] = { F5(8), F5(16), F5(32), F5(8l), F5(16l), F5(32l), F5(64),
+    {"mpw32", at_mpw32}, {"mpr32", at_mpr32}, {"mpw64", at_mpw64}, {"mpr64", at_mpr64}, {NULL, NULL} };
 static fn lookup(const char* n) { int i; for (i = 0; table[i].name; i++) if (!strcmp(table[i].name, n)) return table[i].f; fprintf(stderr, "no op %s\n", n); abort(); }
 #define MAXOPS 4096
 typedef struct { int t; char op[12]; fn f; U32 a; U64 v, e, old; long tb, te; } Op;
@@ -76,6 +77,18 @@ static void* cas_inc(void* arg) { long me = (long)arg, i; pthread_barrier_wait(&
         while ((got = hcas(inst[me], haddr, (old + 1) & hmask, old) & hmask) != old) old = got;
     }
     return NULL; }
+static void* mp_writer(void* a) { long r; (void)a;
+    for (r = 1; r <= hn; r++) {
+        __atomic_store_n(&sbturn[0], (int)r, __ATOMIC_SEQ_CST); while (__atomic_load_n(&sbturn[1], __ATOMIC_SEQ_CST) < (int)r) {}
+        hst(inst[0], haddr, (U64)r, 0);
+    }
+    return NULL; }
+static void* mp_reader(void* a) { long r; (void)a;
+    for (r = 1; r <= hn; r++) {
+        __atomic_store_n(&sbturn[1], (int)r, __ATOMIC_SEQ_CST); while (__atomic_load_n(&sbturn[0], __ATOMIC_SEQ_CST) < (int)r) {}
+        { U64 x; do { x = hld(inst[1], haddr, (U64)r, 0); } while (x == ~(U64)0); if (x != (U64)r) hbad++; }
+    }
+    return NULL; }
 static int cmp64(const void* a, const void* b) { U64 x = *(const U64*)a, y = *(const U64*)b; return x < y ? -1 : x > y; }
 static volatile int go;
 static void* adder(void* arg) { long n = (long)arg, i; while (!go) {} for (i = 0; i < n; i++) (void)at_add32(inst[0], 80, 1, 0); return NULL; }
@@ -96,6 +109,21 @@ int main(int argc, char** argv) {
             if (at_ld32(&root, 80, 0, 0) < (1u << 28)) lost++;          /* the completed store is gone */
         }
         printf("{\"rounds\":%d,\"lost_stores\":%d}\n", rounds, lost);
+        return 0;
+    }
+    if (!strcmp(argv[1], "mp")) {
+        /* message passing: per round the writer calls mpw(addr, round), the reader mpr(addr, round) (one wasm function each) */
+        static const char* tg[] = {"32", "64"}; int k; long stale = 0, rounds = argc > 3 ? atol(argv[3]) : 3000;
+        for (k = 0; k < 2; k++) {
+            char nm[16]; pthread_t w, r;
+            snprintf(nm, sizeof nm, "mpw%s", tg[k]); hst = lookup(nm); snprintf(nm, sizeof nm, "mpr%s", tg[k]); hld = lookup(nm);
+            haddr = 256; hn = rounds; hbad = 0; sbturn[0] = sbturn[1] = 0;
+            lookup("st64")(&root, 256, 0, 0); lookup("st64")(&root, 264, 0, 0);
+            pthread_create(&w, NULL, mp_writer, NULL); pthread_create(&r, NULL, mp_reader, NULL);
+            pthread_join(w, NULL); pthread_join(r, NULL);
+            stale += hbad;
+        }
+        printf("{\"op\":\"mp\",\"rounds\":%ld,\"stale\":%ld}\n", rounds, stale);
         return 0;
     }
     if (!strcmp(argv[1], "hammer")) {
